@@ -117,10 +117,13 @@ static void runCase1(uint64_t k, const std::vector<Desc> &descs, const std::vect
 		printConj(net, (int) r, conj.back(), o);
 	}
 	for (size_t i = 0; i < roots.size(); i++)
-		for (size_t j = 0; j < roots.size(); j++)
+		for (size_t j = 0; j < roots.size(); j++) {
 			o << "pair " << i << ' ' << j << " eq=" << conj[i].isEqualTo(conj[j]) << " neg=" << conj[i].isNegationOf(conj[j])
 			  << " sub=" << conj[i].isSubsetOf(conj[j]) << " cbt=" << conj[i].cannotBothBeTrue(conj[j], false)
 			  << " cbtc=" << conj[i].cannotBothBeTrue(conj[j], true) << '\n';
+			// the comparison operators (keys of std::map<Conjunction, …> caches, e.g. determineNegativeRegisterEnables)
+			o << "pairop " << i << ' ' << j << " opeq=" << (conj[i] == conj[j]) << " opcmp=" << ((conj[i] <=> conj[j]) == 0) << '\n';
+		}
 	// intersectTermsWith / removeTerms on copies
 	if (roots.size() >= 2 && !conj[0].isUndefined() && !conj[1].isUndefined()) {
 		Conjunction x = conj[0]; x.intersectTermsWith(conj[1]);
